@@ -87,6 +87,34 @@ def scenario(hist, entry, rng, variant=0):
         lifecycle.observe_all(hist, obj, entry, B, "RowPure", note=who + " buffer refilled in place")
         if who == "fitted" and intruder(entry, obj, variant, rng):
             lifecycle.observe_all(hist, obj, entry, P, "RowPure", note=who + " after a second estimator sharing its sub-estimators was trained")
+        # what an earlier call returned belongs to the caller: a later call on another batch of the same size (or another
+        # method) must not rewrite it
+        if who == "fitted":
+            import copy as _copy
+            import warnings as _w
+            extra_methods = [mm for mm in ("predict_all", "predict_sorted", "transform_bins", "decision_path") if hasattr(obj, mm)]
+            held = []
+            for mth in list(entry.methods) + extra_methods:
+                try:
+                    with _w.catch_warnings():
+                        _w.simplefilter("ignore")
+                        r1 = getattr(obj, mth)(P)
+                        held.append((mth, r1, _copy.deepcopy(r1)))
+                        getattr(obj, mth)(lifecycle.take(P, perm))
+                except Exception:
+                    continue
+            for mth, r1, snap in held:
+                try:
+                    if hasattr(r1, "toarray"):
+                        same = bool((r1 != snap).nnz == 0)
+                    elif hasattr(r1, "equals"):
+                        same = bool(r1.equals(snap))
+                    else:
+                        same = bool(numpy.array_equal(numpy.asarray(r1), numpy.asarray(snap), equal_nan=True))
+                except Exception:
+                    same = True
+                if not same:
+                    hist.t.setdefault("driver_fail", []).append(("ResultKept", "%s: the result of an earlier call was rewritten by a later call" % mth))
         # a batch in single precision goes through (its own outputs are not compared: rounding), then the same float64
         # rows again: answering a query does not change the model
         if isinstance(P, numpy.ndarray) and P.dtype == numpy.float64:
@@ -130,6 +158,40 @@ def intruder(entry, a, variant, rng):
     return True
 
 
+def big_batch(ctx, entry, rng):
+    import warnings
+    a = entry.make(0)
+    X, y = entry.data(rng)
+    try:
+        with warnings.catch_warnings():
+            warnings.simplefilter("ignore")
+            a.fit(X, y) if y is not None else a.fit(X)
+    except Exception:
+        return
+    if not isinstance(X, numpy.ndarray) or X.dtype.kind != "f":
+        return
+    n = rng.choice([2500, 1025, 3333])
+    B = X[numpy.array([rng.randrange(len(X)) for _ in range(n)])]
+    B = drop_near_ties(a, B)
+    n = len(B)
+    rows = sorted(set([0, n - 1, n - 2, 1023, 1024, n // 2] + [rng.randrange(n) for _ in range(6)]))
+    rows = [r for r in rows if 0 <= r < n]
+    for mth in entry.methods:
+        ctx.evaluations += 1
+        try:
+            with warnings.catch_warnings():
+                warnings.simplefilter("ignore")
+                whole = numpy.asarray(getattr(a, mth)(B))
+                for r in rows:
+                    one = numpy.asarray(getattr(a, mth)(B[r:r + 1]))
+                    if not numpy.allclose(whole[r], one[0], rtol=1e-9, atol=1e-9, equal_nan=True):
+                        ctx.violation("RowPure", "C04 " + entry.name, "%s: batch of %d rows vs single row" % (mth, n),
+                                      dict(row=r, batch=numpy.asarray(whole[r]).tolist(), single=numpy.asarray(one[0]).tolist()))
+                        break
+        except Exception as e:       # noqa: BLE001
+            ctx.skipped.append("%s.%s on a batch of %d rows: %r" % (entry.name, mth, n, e))
+
+
 def run(ctx):
     boot.load()
     thorough = ctx.tier == "thorough"
@@ -147,7 +209,14 @@ def run(ctx):
             scenario(hist, entry, rng, rep % 2)
             ctx.case((entry.name, rep), sample=dict(kind="history", cls=entry.name,
                                                     events=[(e["a"], e.get("method", e.get("how", "")), e.get("note", "")) for e in hist.t["ev"][:9]]))
+            for clause, detail in hist.t.pop("driver_fail", []):
+                ctx.violation(clause, "C04 " + entry.name, "earlier result", detail)
             traces.append(hist.t)
+    # batches beyond the block sizes of block-wise implementations (1024, ...): a few rows of the big batch alone
+    for entry in classes.entries():
+        if not entry.fit or not entry.rowwise or not entry.methods or not entry.name.startswith(("Piecewise", "KMeansL1L2", "DecisionTreeLogistic")):
+            continue
+        big_batch(ctx, entry, rng)
     lifecycle.validate(ctx, traces)
     ctx.exhaustive = False
     ctx.rule = ("Per class with a row-wise method: fit, then for the fitted object, its pickle round-trip and its "
